@@ -894,6 +894,36 @@ func c18Scenarios(c *Cases, mon *[]MonitorFailure, cnt *c18Counters) {
 			r.idle(3)
 		})
 	}
+	// a validator that changed its public key is the same validator: Tendermint reports its votes and evidence under the
+	// address of the NEW key; misses and double signing after the rotation are punished like before
+	run("misbehaviour-after-public-key-rotation", 4, delegs, func(r *c18Run) {
+		nd := r.nd
+		r.idle(2)
+		newIdx := make([]int, 2)
+		for k, old := range []int{0, 1} {
+			nv := mkVal(7000 + k)
+			if code := r.tx(nd.Accts[old%len(nd.Accts)], transaction.TypeEditCandidatePublicKey, transaction.EditCandidatePublicKeyData{PubKey: nd.Vals[old].Pub, NewPubKey: nv.Pub}); code != 0 {
+				r.fail("c18-scenario-setup", fmt.Sprintf("scenario: EditCandidatePublicKey answered code %d", code))
+				return
+			}
+			nd.Vals = append(nd.Vals, nv)
+			newIdx[k] = len(nd.Vals) - 1
+		}
+		r.idle(3)
+		if c18Listed(&r.prev, nd.Vals[newIdx[0]].Pub) == nil || c18Listed(&r.prev, nd.Vals[newIdx[1]].Pub) == nil {
+			r.fail("c18-scenario-setup", "scenario: the re-keyed validators are not in the validator set")
+			return
+		}
+		r.until(c18GraceTo + 3)
+		if at := r.absentRun(newIdx[0], c18Repeat(true, 13), nil); at == 0 {
+			r.fail("c18-absent-not-punished", "scenario: a validator that rotated its public key missed 13 consecutive blocks outside grace and was not dropped")
+		}
+		if (nd.Height+1)%stakePeriod == 0 {
+			r.idle(1)
+		}
+		r.step(nil, nil, &BlockOpts{Evidence: []int{newIdx[1]}})
+		r.idle(3)
+	})
 	// evidence in the block in which the validator is switched off for absence: already offline
 	run("evidence-after-switch-off-in-same-block", 4, delegs, func(r *c18Run) {
 		r.until(c18GraceTo + 3)
